@@ -70,11 +70,11 @@ theorem anc_contains_congr {g g' : Forest} (nd : g.allHandles.Nodup) (nd' : g'.a
   · intro h; exact anc_of_mem_subtree lc' nd' (mem_subtree_of_anc lc nd hx h)
 
 section gap
-variable {f : Forest} {a : Nat} {init : List Frame} {fr : Frame} {l0 : List HTree} {P A N : HTree}
+variable {f : Forest} {a : Nat} {init : List ZipFrame} {fr : ZipFrame} {l0 : List HTree} {P A N : HTree}
   {r0 : List HTree} {ps ns : Str}
 
 /-- What the argument checks of `replace` say about the replacing node `b`. -/
-structure ReplArgs (f : Forest) (a b : Nat) (fr : Frame) (P N : HTree) (bv : Value) : Prop where
+structure ReplArgs (f : Forest) (a b : Nat) (fr : ZipFrame) (P N : HTree) (bv : Value) : Prop where
   live : b ∈ f.allHandles
   val : f.value? b = some bv
   normal : bv.category = .normal
@@ -217,7 +217,7 @@ theorem Gap.replace_text (g : Gap f a init fr l0 P A N r0 ps ns) (hi : f.Inv) {b
       rw [eYf, va.prevSibling lcA ndfs (by
         intro n hn; simp only [List.getLast?_concat, Option.some.injEq] at hn; subst hn
         simpa using Ne.symm ra.neP), prevSibling_of_loc_snoc lcA ndfs]
-      simp only [List.getLast?_concat, Option.bind_some, setValue_value, setValue_handle, g.hAn]
+      simp only [List.getLast?_concat, Option.bind_some, fi_setValue_value, fi_setValue_handle, g.hAn]
       rfl
     have hnextA : (fs.spliceOut b).nextSibling a = some N.handle := by
       rw [eYf, va.nextSibling lcA ndfs (by
@@ -246,7 +246,7 @@ theorem Gap.replace_text (g : Gap f a init fr l0 P A N r0 ps ns) (hi : f.Inv) {b
       rw [e1, spliceOut_leaf_eq_drop vb.nodup hgb1 hBt, vp.nextSibling lcP1s vb.nodup (by
         intro n hn; simp only [List.head?_cons, Option.some.injEq] at hn; subst hn
         exact Ne.symm ra.neN), nextSibling_of_loc_snoc lcP1s vb.nodup]
-      simp only [List.head?_cons, Option.bind_some, setValue_value, g.hNn]
+      simp only [List.head?_cons, Option.bind_some, fi_setValue_value, g.hNn]
       rfl
     -- … and `P` is what stands before `N` there (xot 609b613 looks from `N`)
     have lcN1s : Loc (fs.dropSubtree a).roots N.handle (init ++ [fr]) (l0 ++ [P.setValue (.text (ps ++ bs))]) N r0 :=
@@ -266,7 +266,7 @@ theorem Gap.replace_text (g : Gap f a init fr l0 P A N r0 ps ns) (hi : f.Inv) {b
       rw [e1, spliceOut_leaf_eq_drop vb.nodup hgb1 hBt, vn.prevSibling lcN1s vb.nodup (by
         intro n hn; simp only [List.getLast?_concat, Option.some.injEq] at hn; subst hn
         simpa using Ne.symm ra.neP), prevSibling_of_loc_snoc lcN1s vb.nodup]
-      simp only [List.getLast?_concat, Option.bind_some, setValue_value, setValue_handle, g.hNn]
+      simp only [List.getLast?_concat, Option.bind_some, fi_setValue_value, fi_setValue_handle, g.hNn]
       rfl
     rw [hprevN, eY]
     have := remove_inv hYf a
